@@ -48,7 +48,7 @@ def observe(entry, labels, seed, n_train=14, n_test=6, refit=False, level=0.0):
     warnings.filterwarnings("ignore")
     import joblib
     from sktime.utils.data_processing import from_nested_to_3d_numpy
-    ncol = 2 if entry["name"].startswith("column_ensemble") else 1
+    ncol = E.ncol(entry)
     Xtr, ytr = E.make_panel(n_train, ncol, 12, seed, labels=labels, noise=3.0)
     Xte, yte = E.make_panel(n_test, ncol, 12, seed + 77, labels=labels, noise=3.0)
     if level:      # large level relative to the variation (numerical robustness of interval features)
